@@ -84,6 +84,16 @@ def rand_pair(rng, i, simple=False, span=100, sizes=(20, 240), lobes=False):
     """pairs of shapes by configuration family: random placement (crossing / disjoint / touching by chance), B nested strictly
     inside A (results with holes), a crossing next to an on-curve node of A (split-window edge), A enclosing a pocket with B"""
     fam = i % 5
+    if i % 12 == 7:
+        # a plus sign: a wide flat shape and a tall narrow one through its middle — the bounding boxes cross, neither contains a corner of
+        # the other, each outline crosses the other four times
+        o = (float(rng.randint(-span, span)), float(rng.randint(-span, span)))
+        w1, h1 = float(rng.randint(150, 300)), float(rng.randint(30, 80))
+        w2, h2 = float(rng.randint(30, 80)), float(rng.randint(150, 300))
+        o2 = (o[0] + float(rng.randint(-30, 30)), o[1] + float(rng.randint(-25, 25)))
+        mk = lambda w, h, c: {"kind": "rect", "w": w, "h": h, "o": c} if rng.random() < 0.6 else {"kind": "ellipse", "rx": w / 2, "ry": h / 2, "o": c}
+        a, b = mk(w1, h1, o), mk(w2, h2, o2)
+        return (a, b) if rng.random() < 0.5 else (b, a)
     if fam == 0 and i % 10 == 0:
         # disjoint shapes one of whose bounding boxes lies inside the other's: a small shape in the empty corner of a big round one's box
         R = float(rng.randint(80, 140))
@@ -131,7 +141,7 @@ def rand_pair(rng, i, simple=False, span=100, sizes=(20, 240), lobes=False):
         r = float(rng.randint(8, 30))
         bo = (o[0] + float(rng.randint(-15, 15)), o[1] + float(rng.randint(-15, 15)))
         b = rng.choice([{"kind": "circle", "r": r, "o": bo}, {"kind": "rect", "w": 2 * r, "h": r, "o": bo}, {"kind": "ellipse", "rx": r, "ry": r / 2, "o": bo}])
-        return (a, b) if rng.random() < 0.8 else (b, a)
+        return (a, b) if i % 2 else (b, a)      # big minus small and small minus big, both within ten pairs
     if fam == 3:
         # two circles crossing within about 1 % (in parameter) of an on-curve node of the first
         r = float(rng.randint(30, 120))
@@ -152,7 +162,7 @@ def rand_pair(rng, i, simple=False, span=100, sizes=(20, 240), lobes=False):
         star = {"kind": "contour", "segs": [[vs[j], vs[(j + 1) % n]] for j in range(n)]}
         w, h = float(rng.randint(80, 240)), float(rng.randint(80, 240))
         other = {"kind": "rect", "w": w, "h": h, "o": (o[0] + float(rng.randint(-30, 30)), o[1] + float(rng.randint(-30, 30)))}
-        return (other, star) if rng.random() < 0.6 else (star, other)
+        return (other, star) if i % 2 == 0 else (star, other)       # both operand orders within ten pairs (the fill rules of the two operands are set separately)
     return rand_shape(rng, simple=simple, span=span, sizes=sizes), rand_shape(rng, simple=simple, span=span, sizes=sizes)
 
 
